@@ -71,6 +71,21 @@ fn ops_desc<P: KeyId>(out: &mut Out, d: &Descriptor<P>, thorough: bool) {
     out.line(&format!("C diterpk {}", w), &it);
     let scanned = scan_keys(&guard(|| d.to_string()));
     out.line(&format!("J diterpk {} {} {}", w, it, show_ids(&scanned)), "ok");
+    // for_each_key / for_any_key with every stop key
+    {
+        let mut sel: Vec<Option<u32>> = vec![None];
+        let mut seen = BTreeSet::new();
+        for k in scanned.iter() { if seen.insert(*k) { sel.push(Some(*k)); } }
+        sel.push(Some(UNKNOWN));
+        sel.truncate(if thorough { 12 } else { 6 });
+        for s_ in sel {
+            let tok = s_.map(|k| k.to_string()).unwrap_or("-".into());
+            let each = guard(|| { let mut v = vec![]; let r = d.for_each_key(|k| { v.push(k.id()); Some(k.id()) != s_ }); format!("{}|{}", show_ids(&v), if r { 1 } else { 0 }) });
+            let any = guard(|| { let mut v = vec![]; let r = d.for_any_key(|k| { v.push(k.id()); Some(k.id()) == s_ }); format!("{}|{}", show_ids(&v), if r { 1 } else { 0 }) });
+            out.line(&format!("C dforeach {} {}", tok, w), &each);
+            out.line(&format!("C dforany {} {}", tok, w), &any);
+        }
+    }
     // translate
     let distinct: Vec<u32> = { let mut s = BTreeSet::new(); scanned.iter().cloned().filter(|k| s.insert(*k)).collect() };
     let spk0 = catch_unwind(AssertUnwindSafe(|| hex(d.script_pubkey().as_bytes()))).ok();
@@ -119,6 +134,37 @@ fn comb<Pk: KeyId>(leaves: &[Miniscript<Pk, Tap>], n: usize, left: bool) -> Opti
     }
 }
 
+/// the same object through its OTHER construction routes and in the USED state (output script /
+/// spend info computed): the key walkers and the translator must answer as for the fresh object
+fn ops_routes<P: KeyId + ParseDesc>(out: &mut Out, d: &Descriptor<P>) {
+    let w = desc_wire(d);
+    let mut variants: Vec<(&'static str, Descriptor<P>)> = vec![];
+    match catch_unwind(AssertUnwindSafe(|| P::parse(&d.to_string()))) {
+        Ok(Some(p)) => variants.push(("parsed", p)),
+        _ => out.count("route parsed: refused by from_str (consensus-only object)"),
+    }
+    let u = d.clone();
+    let _ = catch_unwind(AssertUnwindSafe(|| u.script_pubkey()));
+    if let Descriptor::Tr(t) = &u { let _ = catch_unwind(AssertUnwindSafe(|| t.spend_info())); }
+    variants.push(("used", u.clone()));
+    variants.push(("used-clone", u.clone()));
+    for (name, x) in variants {
+        out.count(&format!("droute {}", name));
+        if desc_wire(&x) != w {
+            out.count(&format!("observation: route {} gives another structure", name));
+            out.note(&format!("observation route {} example", name), format!("{} -> {}", w, desc_wire(&x)));
+            continue;
+        }
+        out.line(&format!("C diterpk {}", w), &guard(|| show_ids(&x.iter_pk().map(|k| k.id()).collect::<Vec<_>>())));
+        out.line(&format!("C dforeach - {}", w), &guard(|| { let mut v = vec![]; let r = x.for_each_key(|k| { v.push(k.id()); true }); format!("{}|{}", show_ids(&v), if r { 1 } else { 0 }) }));
+        for m in [MapK::Id, MapK::Ren] {
+            let (ans, _, _) = dtr(&x, &Mode::pure1(m));
+            out.line(&format!("C dtranslate {} {}", m.name(), w), &ans);
+            out.line(&format!("J dtranslate-legal {} {} {}", m.name(), w, ans), "ok");
+        }
+    }
+}
+
 fn tree_of(leaves: &[Miniscript<XOnlyPublicKey, Tap>], shape: usize) -> Option<TapTree<XOnlyPublicKey>> {
     let l = |i: usize| TapTree::leaf(leaves[i % leaves.len()].clone());
     match shape {
@@ -141,24 +187,58 @@ pub fn run(out: &mut Out, thorough: bool, rng: &mut Rng) {
         if let Ok(d) = Descriptor::<XOnlyPublicKey>::new_tr(xonly_key(200 + k), None) { n_desc += 1; ops_desc(out, &d, thorough); }
     }
     // miniscript wrappers
-    let cap = if thorough { 400 } else { 45 };
-    let mut segs: Vec<Node> = hand(CtxK::Segwitv0).into_iter().filter(|n| no_raw(&n)).collect();
-    let mut legs: Vec<Node> = hand(CtxK::Legacy).into_iter().filter(|n| no_raw(&n)).collect();
-    let mut bares: Vec<Node> = hand(CtxK::Bare).into_iter().filter(|n| no_raw(&n)).collect();
-    for v in [&mut segs, &mut legs, &mut bares] { for i in (1..v.len()).rev() { let j = rng.below(i + 1); v.swap(i, j); } }
+    // the WHOLE designated corpus (hand-written + dimension corpus + keyless / refused-by-sane
+    // corpus) goes through every wrapper in every tier
+    let cap = usize::MAX;
+    let corpus = |ctx: CtxK| -> Vec<Node> {
+        let mut v = hand(ctx); v.extend(ast::dimension_corpus(ctx)); v.extend(keyless_corpus(ctx));
+        let mut seen = BTreeSet::new();
+        v.into_iter().filter(|n| raws(n).is_empty() && atoms_ok(n) && seen.insert(n.wire())).collect()
+    };
+    let segs: Vec<Node> = corpus(CtxK::Segwitv0);
+    let legs: Vec<Node> = corpus(CtxK::Legacy);
+    let bares: Vec<Node> = corpus(CtxK::Bare);
     for n in segs.iter().take(cap) {
         if let Ok(ms) = to_ms::<PublicKey, Segwitv0>(n) {
-            if let Ok(d) = Descriptor::new_wsh(ms.clone()) { n_desc += 1; ops_desc(out, &d, thorough); }
-            if let Ok(d) = Descriptor::new_sh_wsh(ms) { n_desc += 1; ops_desc(out, &d, thorough); }
+            if let Ok(d) = Descriptor::new_wsh(ms.clone()) { n_desc += 1; ops_desc(out, &d, thorough); ops_routes(out, &d); }
+            if let Ok(d) = Descriptor::new_sh_wsh(ms) { n_desc += 1; ops_desc(out, &d, thorough); ops_routes(out, &d); }
         }
     }
     for n in legs.iter().take(cap) {
-        if let Ok(ms) = to_ms::<PublicKey, Legacy>(n) { if let Ok(d) = Descriptor::new_sh(ms) { n_desc += 1; ops_desc(out, &d, thorough); } }
+        if let Ok(ms) = to_ms::<PublicKey, Legacy>(n) { if let Ok(d) = Descriptor::new_sh(ms) { n_desc += 1; ops_desc(out, &d, thorough); ops_routes(out, &d); } }
         // the same shape over uncompressed keys (legal under sh)
         if let Ok(ms) = to_ms::<PublicKey, Legacy>(&shift_keys(n, 100)) { if let Ok(d) = Descriptor::new_sh(ms) { n_desc += 1; ops_desc(out, &d, thorough); } }
     }
     for n in bares.iter().take(cap) {
-        if let Ok(ms) = to_ms::<PublicKey, miniscript::BareCtx>(n) { if let Ok(d) = Descriptor::new_bare(ms) { n_desc += 1; ops_desc(out, &d, thorough); } }
+        if let Ok(ms) = to_ms::<PublicKey, miniscript::BareCtx>(n) { if let Ok(d) = Descriptor::new_bare(ms) { n_desc += 1; ops_desc(out, &d, thorough); ops_routes(out, &d); } }
+    }
+    // tr: EVERY B-typed member of the tap corpus as a single leaf (incl. keyless leaves, which
+    // only the constructors accept), through `new_tr` and through `Tr::new` + `Descriptor::Tr`
+    {
+        let tapc: Vec<Miniscript<XOnlyPublicKey, Tap>> = corpus(CtxK::Tap).iter()
+            .filter_map(|n| to_ms::<XOnlyPublicKey, Tap>(n).ok()).filter(|m| m.ty.corr.base == miniscript::miniscript::types::Base::B).collect();
+        for (i, m) in tapc.iter().enumerate() {
+            if let Ok(d) = Descriptor::new_tr(xonly_key(200 + (i % 10) as u32), Some(TapTree::leaf(m.clone()))) { n_desc += 1; ops_desc(out, &d, thorough); ops_routes(out, &d); }
+        }
+        // keyless leaves at the first / middle / last position of trees with 3 and 4 leaves, and all-keyless trees
+        use Node::*;
+        let keyed = |i: u32| to_ms::<XOnlyPublicKey, Tap>(&Check(Box::new(PkK(200 + i)))).ok();
+        let kl = |i: u32| to_ms::<XOnlyPublicKey, Tap>(&if i % 2 == 0 { Hash(HK::Sha256, i % 4) } else { Older(5 + i) }).ok();
+        for n in [3usize, 4] {
+            let mut patterns: Vec<Vec<bool>> = vec![vec![true; n]];          // true = keyless
+            for pos in 0..n { let mut p = vec![false; n]; p[pos] = true; patterns.push(p); }
+            let mut two = vec![false; n]; two[0] = true; two[n - 1] = true; patterns.push(two);
+            for p in patterns {
+                let leaves: Vec<Miniscript<XOnlyPublicKey, Tap>> = p.iter().enumerate().filter_map(|(i, k)| if *k { kl(i as u32) } else { keyed(i as u32) }).collect();
+                if leaves.len() != n { continue; }
+                for left in [false, true] {
+                    if let Some(t) = comb(&leaves, n, left) {
+                        if let Ok(d) = Descriptor::new_tr(xonly_key(209), Some(t.clone())) { n_desc += 1; ops_desc(out, &d, thorough); ops_routes(out, &d); }
+                        if let Ok(tr) = miniscript::descriptor::Tr::new(xonly_key(208), Some(t)) { let d = Descriptor::Tr(tr); n_desc += 1; ops_desc(out, &d, thorough); ops_routes(out, &d); }
+                    }
+                }
+            }
+        }
     }
     // tr with trees of 1..3 leaves in both 3-leaf shapes
     let taps: Vec<Miniscript<XOnlyPublicKey, Tap>> = hand(CtxK::Tap).iter().filter(no_raw)
